@@ -126,6 +126,10 @@ func init() {
 		rtPkg + ".Ite64": func(p *Path, _ *ssa.Function, a []Value) Value {
 			return p.tb.Ite(a[0].(*Term), a[1].(*Term), a[2].(*Term))
 		},
+		rtPkg + ".MakeCap": func(p *Path, _ *ssa.Function, a []Value) Value {
+			p.makeCap = int(a[0].(*Term).Signed().Int64())
+			return nil
+		},
 		rtPkg + ".Observe": func(p *Path, _ *ssa.Function, a []Value) Value {
 			return nil
 		},
